@@ -1,4 +1,184 @@
-import MementoModel.Model.RunnerProg
-namespace Memento.Runner
-theorem placeholder_C01 : replay (.val none) = .val none := rfl
-end Memento.Runner
+import MementoModel.Lemmas.VersionInj
+import MementoModel.Props.C03
+import MementoModel.Props.C14
+
+/-!
+# C01 — memoized results are never stale with respect to code and data changes
+
+The storage key of a call is (function name, **version**, argument hash). A stored result can be
+served to a later edition of the program only under an equal key, so "never stale" is:
+
+    equal version  ⇒  equal meaning              (for any two editions, however they are related)
+
+together with C02 (the runner returns what is stored under the key or computes and stores it) and C14
+(calls that leave the hashed closure are refused — the "or raises the undeclared-dependency error" branch).
+
+Model: `Model/Version.lean`; meaning = `eval` (`Lemmas/VersionInj.lean`): the value of a definition
+as a free term over its code token, its argument and the values of everything it names — so every
+edit to any feature of any definition of the closure changes the meaning (the generated programs of
+`c01.py` are built the same way: every feature flows into the returned value).
+
+Program class (`Tracked`): the root is automatically versioned and everything named in its closure
+is an automatically versioned memento function, a plain function of the package, or a variable of a
+supported type. Hash idealisation: SHA-256 truncated to 16 hex digits is an injective function with
+16-character values (`Function.Injective H`, `∀ s, (H s).length = 16`) — hypotheses, not axioms.
+
+The two hypotheses that the proof *forces* mark real collision points of the code, shown below by
+witnesses that need no assumption on `H` at all:
+* rule hashes are concatenated unframed, so they must have one width: explicit version strings of
+  dependencies used to enter verbatim ("1","23" ≡ "12","3": finding K1, repaired by fix F17, see
+  `explicit_versions_framed`);
+* rules for undefined symbols contribute nothing, and a variable's digest does not include its name
+  (`undefined_symbol_collide`, remark R2: needs deleting one variable and defining another).
+-/
+namespace Memento.Version
+
+/-- **version determines closure.** Two tracked programs in which `f` has the same version bind every
+    name of `f`'s closure (its functions and everything they name) to the same definition. -/
+theorem version_determines_closure (H : Ser → List Char) (hinj : Function.Injective H)
+    (hw : ∀ s, (H s).length = 16) (P P' : Prog) (f : Name) (hT : Tracked P f) (hT' : Tracked P' f)
+    (hv : version H P id f = version H P' id f) :
+    (∀ n, InClos P f n → lookup P' n = lookup P n) ∧ (∀ n, InClos P' f n → lookup P n = lookup P' n) := by
+  have h1 : versionInput H P id f = versionInput H P' id f := by
+    have := hinj hv
+    simpa using this
+  have h2 : hashList H P f = hashList H P' f :=
+    flatten_inj_uniform (by decide : 0 < 16) _ _ (hashList_width hw hT) (hashList_width hw hT') h1
+  have ha : Agree H P P' f := ⟨hinj, hT, hT', h2⟩
+  exact ⟨fun n hn => ha.lookup_clos hn, fun n hn => ha.symm.lookup_clos hn⟩
+
+/-- **closure determines meaning** (here directly from the agreement of digests) and hence
+    **equal version ⇒ equal meaning**, at every evaluation depth and for every argument. -/
+theorem equal_version_equal_meaning (H : Ser → List Char) (hinj : Function.Injective H)
+    (hw : ∀ s, (H s).length = 16) (P P' : Prog) (f : Name) (hT : Tracked P f) (hT' : Tracked P' f)
+    (ord ord' : List Name → List Name) (ho : OrdOK ord) (ho' : OrdOK ord')
+    (hv : version H P ord f = version H P' ord' f) (k a : Nat) :
+    eval P k f a = eval P' k f a := by
+  rw [version_order_independent H P ord id ho ordOK_id, version_order_independent H P' ord' id ho' ordOK_id] at hv
+  have h1 : versionInput H P id f = versionInput H P' id f := by
+    have := hinj hv
+    simpa using this
+  have h2 : hashList H P f = hashList H P' f :=
+    flatten_inj_uniform (by decide : 0 < 16) _ _ (hashList_width hw hT) (hashList_width hw hT') h1
+  exact Agree.eval_eq ⟨hinj, hT, hT', h2⟩ a k f (Or.inl (Or.inl rfl))
+
+/-! ### the store-level statement -/
+
+/-- a persistent store of results, keyed by (function, version, argument) -/
+abbrev VStore := List ((Name × List Char × Nat) × Res)
+
+def VStore.get (s : VStore) (key : Name × List Char × Nat) : Option Res :=
+  (s.find? (fun e => e.1 == key)).map (·.2)
+
+/-- every entry was computed by *some* tracked edition of the program under the version that edition gave
+    the function (the store may have been filled by any number of earlier editions, in any order) -/
+def FilledByEditions (H : Ser → List Char) (k : Nat) (s : VStore) : Prop :=
+  ∀ f v a r, ((f, v, a), r) ∈ s → ∃ P ord, OrdOK ord ∧ Tracked P f ∧ version H P ord f = v ∧ r = eval P k f a
+
+/-- what a memoized call of `f a` returns under the current edition `P` -/
+def memoCall (H : Ser → List Char) (k : Nat) (s : VStore) (P : Prog) (ord : List Name → List Name) (f a : Name) : Res :=
+  match s.get (f, version H P ord f, a) with
+  | some r => r
+  | none => eval P k f a
+
+/-- **no stale result**: whatever editions filled the store, a memoized call under the current edition returns
+    exactly what the un-memoized execution of the current edition returns -/
+theorem no_stale (H : Ser → List Char) (hinj : Function.Injective H) (hw : ∀ s, (H s).length = 16)
+    (k : Nat) (s : VStore) (hs : FilledByEditions H k s)
+    (P : Prog) (ord : List Name → List Name) (ho : OrdOK ord) (f a : Nat) (hT : Tracked P f) :
+    memoCall H k s P ord f a = eval P k f a := by
+  unfold memoCall
+  cases hg : s.get (f, version H P ord f, a) with
+  | none => rfl
+  | some r =>
+    unfold VStore.get at hg
+    cases hf : s.find? (fun e => e.1 == (f, version H P ord f, a)) with
+    | none => simp [hf] at hg
+    | some e =>
+      simp only [hf, Option.map_some, Option.some.injEq] at hg
+      have hmem := List.mem_of_find?_eq_some hf
+      have hkey : e.1 = (f, version H P ord f, a) := by
+        have := List.find?_some hf
+        simpa using this
+      obtain ⟨⟨f', v', a'⟩, r'⟩ := e
+      simp only [Prod.mk.injEq] at hkey
+      obtain ⟨rfl, rfl, rfl⟩ := hkey
+      simp only at hg
+      subst hg
+      obtain ⟨P0, ord0, ho0, hT0, hv0, hr0⟩ := hs _ _ _ _ hmem
+      rw [hr0]
+      exact equal_version_equal_meaning H hinj hw P0 P f' hT0 hT ord0 ord ho0 ho hv0 k a'
+
+/-- the storing side: adding the result the current edition computes keeps the store `FilledByEditions` -/
+theorem store_preserves (H : Ser → List Char) (k : Nat) (s : VStore) (hs : FilledByEditions H k s)
+    (P : Prog) (ord : List Name → List Name) (ho : OrdOK ord) (f a : Nat) (hT : Tracked P f) :
+    FilledByEditions H k (((f, version H P ord f, a), eval P k f a) :: s) := by
+  intro f' v' a' r' hmem
+  rcases List.mem_cons.mp hmem with h | h
+  · simp only [Prod.mk.injEq] at h
+    obtain ⟨⟨rfl, rfl, rfl⟩, rfl⟩ := h
+    exact ⟨P, ord, ho, hT, rfl, rfl⟩
+  · exact hs _ _ _ _ h
+
+/-! ### the collision points the hypotheses exclude (for every hash function `H`) -/
+
+/-- K1 (repaired by fix F17): `f` depends on two explicitly versioned functions. Editing both (tokens 20→21, 30→31)
+    and changing their version strings from "1","23" to "12","3" left `f`'s version unchanged when the strings entered
+    the digest verbatim. With fixed-width digests of the strings the version input differs. -/
+def exK1a : Prog := [(0, .memento none 10 [1, 2]), (1, .memento (some ['1']) 20 []), (2, .memento (some ['2', '3']) 30 [])]
+def exK1b : Prog := [(0, .memento none 10 [1, 2]), (1, .memento (some ['1', '2']) 21 []), (2, .memento (some ['3']) 31 [])]
+
+theorem explicit_versions_framed :
+    versionInput exH exK1a id 0 ≠ versionInput exH exK1b id 0 ∧ eval exK1a 2 0 0 ≠ eval exK1b 2 0 0 := by
+  constructor
+  · decide +kernel
+  · intro h
+    simp [eval, exK1a, exK1b, lookup] at h
+
+/-- R2: `f` names `V1` and `V2`; first only `V1 = 5` is defined, then only `V2 = 5`: same version, different meaning. -/
+def exR2a : Prog := [(0, .memento none 10 [1, 2]), (1, .var (some 5))]
+def exR2b : Prog := [(0, .memento none 10 [1, 2]), (2, .var (some 5))]
+
+theorem undefined_symbol_collide (H : Ser → List Char) :
+    version H exR2a id 0 = version H exR2b id 0 ∧ eval exR2a 2 0 0 ≠ eval exR2b 2 0 0 := by
+  constructor
+  · have : versionInput H exR2a id 0 = versionInput H exR2b id 0 := by rfl
+    unfold version; rw [this]
+  · intro h
+    simp [eval, exR2a, exR2b, lookup] at h
+
+/-! ### non-vacuity of the hypotheses -/
+
+def exT : Prog :=
+  [(0, .memento none 10 [1, 3, 5]), (1, .plain true 11 [2, 5]), (2, .memento none 12 [0]), (3, .plain true 13 []),
+   (5, .var (some 7))]
+
+theorem reachN_names {P : Prog} {f g : Name} (h : ReachN P f g) : g ∈ names P := by
+  obtain ⟨p, _, d, hd, hr⟩ := reachN_last h
+  exact refs_mem_names hd hr
+
+/-- a cyclic program with a helper and a variable is tracked -/
+example : Tracked exT 0 := by
+  refine ⟨⟨10, [1, 3, 5], rfl⟩, ?_⟩
+  intro p r _ href
+  obtain ⟨d, hd, hr⟩ := href
+  have hp := lookup_some_mem hd
+  simp only [exT, List.mem_cons, Prod.mk.injEq, List.not_mem_nil, or_false] at hp
+  rcases hp with ⟨rfl, rfl⟩ | ⟨rfl, rfl⟩ | ⟨rfl, rfl⟩ | ⟨rfl, rfl⟩ | ⟨rfl, rfl⟩ <;>
+    simp only [Def.refs, List.mem_cons, List.not_mem_nil, or_false] at hr
+  · rcases hr with rfl | rfl | rfl
+    · exact Or.inr (Or.inl ⟨11, [2, 5], rfl⟩)
+    · exact Or.inr (Or.inl ⟨13, [], rfl⟩)
+    · exact Or.inr (Or.inr ⟨7, rfl⟩)
+  · rcases hr with rfl | rfl
+    · exact Or.inl ⟨12, [0], rfl⟩
+    · exact Or.inr (Or.inr ⟨7, rfl⟩)
+  · subst hr; exact Or.inl ⟨10, [1, 3, 5], rfl⟩
+
+/-- an edit beneath a helper changes the version input (so, for injective `H`, the version) -/
+def exT' : Prog :=
+  [(0, .memento none 10 [1, 3, 5]), (1, .plain true 11 [2, 5]), (2, .memento none 12 [0]), (3, .plain true 13 []),
+   (5, .var (some 8))]
+example : versionInput exH exT id 0 ≠ versionInput exH exT' id 0 := by decide +kernel
+
+end Memento.Version
